@@ -1491,7 +1491,11 @@ fn assignment_stmt_to_asg_stmt(
         // }
     }
     let expr = expr_to_asg_texpr(assignment_stmt.rhs(), context).unwrap(); // rhs of `=` operator
+    let is_mutating_const = indexed_identifier.identifier().is_ok() && typ.is_const();
     let lvalue = asg::LValue::IndexedIdentifier(indexed_identifier);
+    if is_mutating_const {
+        context.insert_error(MutateConstError, assignment_stmt);
+    }
     Some(asg::Assignment::new(lvalue, expr).to_stmt())
 }
 
